@@ -279,6 +279,21 @@ class Walker:
                 else:
                     flat.append(a)
             args = tuple(flat)
+            if kwargs and isinstance(node.func, ast.Name) and node.func.id in self.facts.funcs and node.func.id not in st.env \
+                    and not any(a[0] == 'star' for a in args):
+                # f(x, p=y) with p the next positional parameter of a module-level function is f(x, y)
+                fdef = self.facts.funcs[node.func.id]
+                if not fdef.args.vararg and not fdef.args.posonlyargs:
+                    params = [a.arg for a in fdef.args.args]
+                    kw = dict(kwargs)
+                    if len(kw) == len(kwargs) and None not in kw:
+                        moved = list(args)
+                        for pname in params[len(args):]:
+                            if pname not in kw:
+                                break
+                            moved.append(kw.pop(pname))
+                        args = tuple(moved)
+                        kwargs = tuple((k, v) for k, v in kwargs if k in kw)
             if isinstance(node.func, ast.Name) and node.func.id in self.facts.classes and node.func.id not in st.env:
                 return ('new', node.func.id, args, kwargs)
             if isinstance(node.func, ast.Attribute):
@@ -831,6 +846,8 @@ class Walker:
                 return None
             vals = []
             for p in paths:
+                if p.end == 'raise' and getattr(self, 'returning_paths_only', False) and p not in live:
+                    continue        # asked for the value the call has when it returns (sizes on the non-failing path)
                 if any(e[0] not in self.PURE_EVENTS for e in p.events):
                     return None
                 if p in live:
@@ -839,6 +856,8 @@ class Walker:
                     vals.append((p, [e for e in p.events if e[0] == 'return'][-1][1]))
                 else:
                     return None
+            if not vals:
+                return None
             return self.merge_paths(vals, 0)
         finally:
             self._inline_stack.pop()
@@ -873,6 +892,17 @@ class Walker:
     # -- deciding tests --------------------------------------------------------------------------------------------
     def class_is(self, cls, base):
         return self.facts.is_subclass(cls, base) if cls in self.facts.classes else None
+
+    def exact_class_test(self, test):
+        """(object, class name) for `type(x) is C` / `x.__class__ is C` (either order, also == / != / is not) with C a class of
+        the analysed module, else None."""
+        for a, b in ((test[2], test[3]), (test[3], test[2])):
+            if b[0] == 'name' and len(b) == 2 and b[1] in self.facts.classes:
+                if a[0] == 'call' and a[1] == 'type' and len(a[2]) == 1 and not a[3]:
+                    return a[2][0], b[1]
+                if a[0] == 'attr' and a[2] == '__class__':
+                    return a[1], b[1]
+        return None
 
     def decide(self, test, st):
         """True / False / None for a symbolic test under the path's facts."""
@@ -914,6 +944,26 @@ class Walker:
                     if self.class_is(clsname, c) is False and self.class_is(c, clsname) is False:
                         return False
             return None
+        if k == 'cmp' and test[1] in ('==', '!=', 'is', 'is not'):
+            tc = self.exact_class_test(test)
+            if tc is not None:
+                obj, clsname = tc
+                same = None
+                if obj[0] == 'new':
+                    same = obj[1] == clsname
+                else:
+                    f = st.facts.get(obj)
+                    if f:
+                        subs = [c for c in self.facts.subclasses(clsname) if c != clsname]
+                        if clsname in f['isa'] and all(c in f['nota'] for c in subs):
+                            same = True
+                        elif any(self.class_is(clsname, c) for c in f['nota']):
+                            same = False
+                        elif any(self.class_is(clsname, c) is False for c in f['isa'] if c in self.facts.classes):
+                            same = False
+                if same is not None:
+                    return same if test[1] in ('==', 'is') else not same
+                return None
         if k == 'cmp':
             op, a, b = test[1], test[2], test[3]
             if op in ('==', '!=', 'is', 'is not') :
@@ -971,6 +1021,20 @@ class Walker:
             f = st.fact(test[2][0])
             (f['isa'] if pol else f['nota']).add(test[2][1][1])
             return
+        if k == 'cmp' and test[1] in ('==', '!=', 'is', 'is not'):
+            tc = self.exact_class_test(test)
+            if tc is not None:
+                # type(x) is C: x is a C and of no proper subclass; the negation excludes C only when C has no subclass
+                obj, clsname = tc
+                subs = [c for c in self.facts.subclasses(clsname) if c != clsname]
+                f = st.fact(obj)
+                if (test[1] in ('==', 'is')) == pol:
+                    f['isa'].add(clsname)
+                    f['nota'].update(subs)
+                elif not subs:
+                    f['nota'].add(clsname)
+                st.fact(test)['truthy'] = pol
+                return
         if k == 'cmp':
             st.fact(test)['truthy'] = pol          # the same comparison of the same values decides the same way later on
             op, a, b = test[1], test[2], test[3]
@@ -1719,35 +1783,66 @@ class Walker:
         return w
 
     def dict_update_loop(self, node):
-        """(dict expression, equivalent DictComp node) for a loop that rewrites the values of the dict it iterates, else None."""
-        if node.orelse or not (isinstance(node.target, ast.Tuple) and len(node.target.elts) == 2 and all(isinstance(e, ast.Name) for e in node.target.elts)):
+        """(dict expression, equivalent DictComp node) for a loop that rewrites the values of the dict it iterates, else None:
+        `for k, v in D.items(): [if test:] D[k] = f(v)` and `for k in D: [if test:] D[k] = f(D[k])`, the assignment possibly
+        written as an augmented one, the iterable possibly wrapped in list(...)."""
+        if node.orelse:
+            return None
+        pair = isinstance(node.target, ast.Tuple) and len(node.target.elts) == 2 and all(isinstance(e, ast.Name) for e in node.target.elts)
+        if not pair and not isinstance(node.target, ast.Name):
             return None
         it = node.iter
-        if isinstance(it, ast.Call) and isinstance(it.func, ast.Name) and it.func.id in ('list', 'tuple') and len(it.args) == 1:
+        if isinstance(it, ast.Call) and isinstance(it.func, ast.Name) and it.func.id in ('list', 'tuple') and len(it.args) == 1 and not it.keywords:
             it = it.args[0]
-        if not (isinstance(it, ast.Call) and isinstance(it.func, ast.Attribute) and it.func.attr == 'items' and not it.args
-                and isinstance(it.func.value, ast.Name)):
-            return None
-        dname = it.func.value.id
-        k, v = node.target.elts[0].id, node.target.elts[1].id
+        if pair:
+            if not (isinstance(it, ast.Call) and isinstance(it.func, ast.Attribute) and it.func.attr == 'items' and not it.args
+                    and isinstance(it.func.value, ast.Name)):
+                return None
+            dexpr = it.func.value
+            k, v = node.target.elts[0].id, node.target.elts[1].id
+        else:
+            if isinstance(it, ast.Call) and isinstance(it.func, ast.Attribute) and it.func.attr == 'keys' and not it.args and not it.keywords:
+                it = it.func.value
+            if not isinstance(it, ast.Name):
+                return None
+            dexpr = it
+            k, v = node.target.id, None
+        dname = dexpr.id
         body = node.body
         tests = []
         while len(body) == 1 and isinstance(body[0], ast.If) and not body[0].orelse:
             tests.append(body[0].test)
             body = body[0].body
-        if not (len(body) == 1 and isinstance(body[0], ast.Assign) and len(body[0].targets) == 1):
+        if len(body) != 1:
             return None
-        tgt = body[0].targets[0]
+        st0 = body[0]
+        if isinstance(st0, ast.Assign) and len(st0.targets) == 1:
+            tgt, value = st0.targets[0], st0.value
+        elif isinstance(st0, ast.AugAssign):
+            tgt = st0.target
+            cur = ast.Name(id=v, ctx=ast.Load()) if pair else ast.Subscript(value=ast.Name(id=dname, ctx=ast.Load()), slice=ast.Name(id=k, ctx=ast.Load()), ctx=ast.Load())
+            value = ast.BinOp(left=cur, op=st0.op, right=st0.value)
+        else:
+            return None
         if not (isinstance(tgt, ast.Subscript) and isinstance(tgt.value, ast.Name) and tgt.value.id == dname
                 and isinstance(tgt.slice, ast.Name) and tgt.slice.id == k):
             return None
-        if any(isinstance(n, ast.Name) and n.id == dname for t in tests + [body[0].value] for n in ast.walk(t)):
+        if pair and any(isinstance(n, ast.Name) and n.id == dname for t in tests + [value] for n in ast.walk(t)):
             return None
-        comp = ast.DictComp(key=ast.Name(id=k, ctx=ast.Load()), value=body[0].value,
+        if not pair:
+            # the dict may only be read at the key of this iteration
+            cells = set()
+            for t in tests + [value]:
+                for n in ast.walk(t):
+                    if isinstance(n, ast.Subscript) and isinstance(n.value, ast.Name) and n.value.id == dname and isinstance(n.slice, ast.Name) and n.slice.id == k:
+                        cells.add(id(n.value))
+            if any(isinstance(n, ast.Name) and n.id == dname and id(n) not in cells for t in tests + [value] for n in ast.walk(t)):
+                return None
+        comp = ast.DictComp(key=ast.Name(id=k, ctx=ast.Load()), value=value,
                             generators=[ast.comprehension(target=node.target, iter=it, ifs=tests, is_async=0)])
         ast.copy_location(comp, node)
         ast.fix_missing_locations(comp)
-        return it.func.value, comp
+        return dexpr, comp
 
     def unrolled_for(self, node, it, st, done, only_truthy=False):
         """`for x in (<literal elements>)`: the body is walked once per element, in order (with only_truthy: for the elements
